@@ -81,6 +81,27 @@ func (p *forestPrinter) ref(n *yaml.Node) {
 // forestNodeExtra: optional per-node annotation bits (C01: does the scalar decode into a Go string / int).
 var forestNodeExtra func(n *yaml.Node) int
 
+// aliasUnfoldSize: number of nodes of the tree a node unfolds to when every alias is replaced by its anchor (memoised,
+// saturating; cycles count 1): parser.go aliasExpansion.
+func aliasUnfoldSize(n *yaml.Node, memo map[*yaml.Node]int) int {
+	if n == nil {
+		return 0
+	}
+	if v, ok := memo[n]; ok {
+		return v
+	}
+	memo[n] = 1
+	t := 1 + aliasUnfoldSize(n.Alias, memo)
+	for _, c := range n.Content {
+		t += aliasUnfoldSize(c, memo)
+		if t > 1<<40 {
+			t = 1 << 40
+		}
+	}
+	memo[n] = t
+	return t
+}
+
 // nodeIntDecBit: per-NODE answer bit 6 (Run/C19.v int_ok_run; the same bit C01 calls annIntDec): the scalar decodes
 // into a Go int with the real yaml.Node.Decode (strict.go parseGroup, `limit`, fix a6b0afc).
 func nodeIntDecBit(n *yaml.Node) int {
@@ -190,7 +211,8 @@ func (p *forestPrinter) node(n *yaml.Node) {
 	// folded into the input, n_embedded is only provided where pint would call yaml.Unmarshal and succeed.
 	if n.Kind == yaml.ScalarNode && strings.Count(n.Value, "\n") > 1 && n.Style&yaml.LiteralStyle != 0 {
 		var e yaml.Node
-		if err := yaml.Unmarshal([]byte(n.Value), &e); err == nil && !nodeHasAliasCycle(&e) {
+		// (fix 07824b1: nor into embedded documents above the alias expansion limit)
+		if err := yaml.Unmarshal([]byte(n.Value), &e); err == nil && !nodeHasAliasCycle(&e) && aliasUnfoldSize(&e, map[*yaml.Node]int{}) <= 1_000_000 {
 			emb = &e
 		}
 	}
